@@ -23,7 +23,7 @@ EXPLANATION = ('Dominance rules with strength over the CFG of lz4::decompress, r
                'decremented after every copy, the source cursor is tested before every read of the sequence header, the constants are '
                'coherent, and the wrapper neither skips a result check nor rejects more than the decoder contract.  That the bytes '
                'produced equal a reference decoder\'s and that compressed fonts shape identically are run-time facts, not decided.')
-FLOORS = {'COPYGUARD': 5, 'BOOKKEEPING': 2, 'SEQGUARD': 3, 'LZCONST': 1, 'DECOMPRESS': 5}
+FLOORS = {'COPYGUARD': 6, 'BOOKKEEPING': 2, 'SEQGUARD': 3, 'LZCONST': 1, 'DECOMPRESS': 5}
 
 import re
 
@@ -130,6 +130,30 @@ def copyguard(run, fx):
                 if name == 'overrun_copy' else 'bytes can be copied outside the output produced so far / beyond the announced size'), {'facts': fs})
         else:
             run.held('COPYGUARD', inst, fn.loc(e), 'dominated by ' + '; '.join('%s %s %s' % w for w in need))
+    # the contract COPYGUARD relies on: overrun_copy(d, s, n) writes exactly align(n) bytes -- whole words while the source cursor is
+    # strictly below s + n
+    oc = fx.one('(anonymous namespace)::overrun_copy')
+    ps = [p_['n'] for p_ in oc.f['params']]
+    okw = False
+    conds = []
+    if len(ps) == 3:
+        for b in oc.blocks:
+            t = oc.blocks[b].get('term') or {}
+            c = oc.term_cond(b)
+            if c is not None and t.get('k') in ('DoStmt', 'WhileStmt', 'ForStmt'):
+                for a, pol in dom.atoms(oc, c, True):
+                    f = dom.norm(oc, a, pol, resolve=True)
+                    conds.append(f)
+                    g = (f[2], dom.FLIP[f[1]], f[0]) if f[1] in dom.FLIP else f
+                    for h in (f, g):
+                        if h[0] == ps[1] and h[1] == '<' and _norm(h[2]).strip('()') in ('%s+%s' % (ps[1], ps[2]), 'e'):
+                            okw = True
+    if okw:
+        run.held('COPYGUARD', 'overrun_copy writes align(n) bytes', oc.where(), 'word loop continues while s < s + n (strict)')
+    else:
+        run.violated('COPYGUARD', 'overrun_copy writes align(n) bytes', oc.where(), 'the word loop of overrun_copy no longer stops as soon as the source cursor reaches s + n '
+                     '(loop condition %s): for lengths that are a multiple of the word size it copies one more word than align(n), '
+                     'past the bound its callers checked' % conds)
     # entry and wrap tests: the loop is reached only with out_size > in_size, in_size >= MINSRCSIZE, src < src_end, dst < dst_end
     rs = calls_in(fn, '(anonymous namespace)::read_sequence')
     if not rs:
@@ -303,6 +327,18 @@ def decompress(run, fx):
     else:
         run.violated('DECOMPRESS', 'announced size', dc.loc(c), 'the output buffer / size handed to the decoder no longer equal the announced 27-bit size '
                      '(mask %s, allocation %s, arguments %s)' % (szok, aok, args))
+    # every fixed-size write into the fresh buffer is dominated by the announced size being at least that large
+    for m_ in calls_in(dc, 'memset') + calls_in(dc, 'memcpy'):
+        if dc.render(dc.deref(m_['args'][0])) != 'uncompressed_table':
+            continue
+        L = dom._cval(dc, m_['args'][2])
+        fs2 = [f[:3] for f in dom.facts_at(dc, m_['i'])]
+        inst = '%s(uncompressed_table, .., %s) @%s' % (m_['fq'], L, m_['ln'])
+        if L is not None and any(dom.implies(f, ('uncompressed_size', '>=', str(L))) for f in fs2):
+            run.held('DECOMPRESS', inst, dc.loc(m_), 'dominated by uncompressed_size >= %d' % L)
+        else:
+            run.violated('DECOMPRESS', inst, dc.loc(m_), 'the freshly allocated buffer of `uncompressed_size` bytes is written with %s bytes without a dominating '
+                         '`uncompressed_size >= %s`: a table announcing a smaller size is written beyond its allocation' % (L, L), {'facts': fs2})
     # result compared with the announced size; version word compared
     tests = [dc.render(dc.N(e['args'][0])) for e in calls_in(dc, 'graphite2::Error::test')]
     r1 = any('lz4::decompress' in t and '!=' in t and 'uncompressed_size' in t for t in tests)
